@@ -343,7 +343,7 @@ func c15GenRate(t *rapid.T, minPer, maxPer time.Duration) (count int, window str
 func TestC15Rate(t *testing.T) {
 	kit.Run(t, kit.Spec[c15RateCase]{
 		Prop: "C15",
-		Rule: "full packet-scan commands (arp, icmp, udp, tcp variants; Ethernet and raw-IP; <=200 and >200 port ranges, i.e. one limiter per chunk) with --rate N or N/W, W in {s,1s,2s,1.5s,m,1m,0.1m,h,1h,0.5s,ms,100ms,20ms,10ms,3ms,us,500us}, N drawn so that W/N is 0.15..25 ms, 17..600 probes (about 1 s of sending); also rates below one probe per second (1/2s, 3/5s, 20/m ...) with the scan interrupted after 1.2 s; in a third of the longer scans the wire blocks inside one early write for 25..60 rate intervals. Observed: monotonic time of every WritePacketData on the virtual wire. Oracle (lower bound only): for all i<j on one socket t_j - t_i >= (j-i-12)*W/N - 200us. non-trivial: some pair has a positive bound; distinct by case",
+		Rule: "full packet-scan commands (arp, icmp, udp, tcp variants; Ethernet and raw-IP; <=200 and >200 port ranges, i.e. one limiter per chunk) with --rate N or N/W, W in {s,1s,2s,1.5s,m,1m,0.1m,h,1h,0.5s,ms,100ms,20ms,10ms,3ms,us,500us}, N drawn so that W/N is 0.15..25 ms, 17..600 probes (about 1 s of sending); also rates below one probe per second (1/2s, 3/5s, 20/m ...) with the scan interrupted after 1.2 s, and one case in sixteen far below it (1/m, 2/m, 30/h, 1/90s) watched for 14.5 s; in a third of the longer scans the wire blocks inside one early write for 25..60 rate intervals. Observed: monotonic time of every WritePacketData on the virtual wire. Oracle (lower bound only): for all i<j on one socket t_j - t_i >= (j-i-12)*W/N - 200us. non-trivial: some pair has a positive bound; distinct by case",
 		Gen: func(t *rapid.T) c15RateCase {
 			c := c15RateCase{Cmd: rapid.SampledFrom(c01PacketCmds).Draw(t, "cmd"), Seed: rapid.Int64().Draw(t, "seed")}
 			var per time.Duration
@@ -368,6 +368,12 @@ func TestC15Rate(t *testing.T) {
 				r := rapid.SampledFrom([][2]string{{"1", "2s"}, {"3", "5s"}, {"20", "m"}, {"1", "1500ms"}, {"2", "3s"}}).Draw(t, "slowrate")
 				fmt.Sscan(r[0], &c.Count)
 				c.Window, c.Probes, c.Chunked, c.StopMs = r[1], 32, false, 1200
+			} else if rapid.IntRange(0, 15).Draw(t, "long-slow") == 0 {
+				// far below one probe per second, watched for 14.5 s: an error of less than one probe per second stays inside
+				// the start-up burst allowance for ten seconds, whatever the rate
+				r := rapid.SampledFrom([][2]string{{"1", "m"}, {"2", "m"}, {"30", "h"}, {"1", "90s"}}).Draw(t, "veryslowrate")
+				fmt.Sscan(r[0], &c.Count)
+				c.Window, c.Probes, c.Chunked, c.StopMs = r[1], 32, false, 14500
 			} else if c.Probes > 80 && rapid.IntRange(0, 2).Draw(t, "stall") == 0 {
 				// the wire (a full tx queue) blocks one write for 25..60 rate intervals: when it comes back, at most
 				// the limiter's fixed burst may leave back to back, not everything that "should" have left meanwhile
